@@ -10,37 +10,40 @@ META = dict(
               'theorems over all histories of an executable model of session_interface + sid/cookies/dual back-ends + abstract storage + cookie '
               'jars + virtual clock) + extracted-model correspondence on the real session_interface (cookie-jar adapter AND real HTTP front end) '
               'with interposed time() + independent token-level property oracle',
-    level_text=('Theorems in coq/C06/Props.v (49, all closed under the global context) over an executable model of session_interface::load/save '
-                '(new-session rule, fixed/renew/browser policy with the IEEE-double 10 % window, cookie_age, session_age, update_exposed(force || renew)), '
-                'clear() resetting age/expiration/on_server to the configured defaults, the '
-                'packed entry codec, session_sid, session_cookies (symbolic MAC), session_dual, an abstract session_storage, per-browser cookie '
-                'jars and a virtual clock: codec round trip and totality; in every history every storage access uses a 32-hex id; clear kills '
-                'the id, reset removes the old id and issues the next output of the random source, moving back to the cookie leaves no server '
-                'record; the IEEE-double test of the 10 % window is exactly the integer test 10*delta < timeout for every int timeout; a request '
-                'that takes an early return of save() changes nothing but browser-side cookie expiry; a live record / client cookie is read back exactly, an expired / unknown / malformed / forged one reads empty; for '
-                'every history of other browsers, clock advances and attacker strings nobody else reads or changes a session (also across any number '
-                'of the browser\'s own unchanged requests); age / expiration / '
-                'on_server are always exactly what the entries _t/_h/_s record, for every script incl. clear(); end to end (server, client and '
-                'dual back-ends, scripts with clear() included): the next request of a browser reads exactly the state the previous one left '
-                '(values, exposed flags, age, expiration mode, on-server flag) while now <= the deadline of the mode, the empty session '
-                'afterwards - also in closed form from the empty world over all fair histories (reachable-world invariant). Exposed cookies: '
-                'only exposed keys keep a cookie; every new/changed/forced exposed entry is sent; in renew mode every save leaves the cookie of '
-                'every exposed value with exactly the lifetime of the session cookie, and the browser holds them as long as it holds the '
-                'session cookie, whatever other browsers / attackers do and across any number of unchanged requests of the same browser; a fixed-mode '
-                'save (not new, not reset) keeps deadline, cookie end and the untouched exposed cookies. For expiration browser and for reset_session() in fixed mode the '
-                'in-step statement is refuted by a computed witness (registered finding exposed-cookie-not-renewed-with-session-cookie). '
+    level_text=('Theorems in coq/C06/Props.v (54, all closed under the global context) over an executable model of session_interface::load/save '
+                '(new-session rule, fixed/renew/browser policy with the IEEE-double 10 % window, cookie_age, session_age, '
+                'update_exposed(force, resend = new session or mode != fixed)), clear() resetting age/expiration/on_server to the configured '
+                'defaults, the packed entry codec, session_sid, session_cookies (symbolic MAC), session_dual, an abstract session_storage, '
+                'per-browser cookie jars and a virtual clock: codec round trip and totality; in every history every storage access uses a '
+                '32-hex id; clear kills the id, reset removes the old id and issues the next output of the random source, moving back to the '
+                'cookie leaves no server record; the IEEE-double test of the 10 % window is exactly the integer test 10*delta < timeout for '
+                'every int timeout; a request that takes an early return of save() changes nothing but browser-side cookie expiry; a live '
+                'record / client cookie is read back exactly, an expired / unknown / malformed / forged one reads empty; for every history of '
+                'other browsers, clock advances and attacker strings nobody else reads or changes a session (also across any number of the '
+                'browser\'s own unchanged requests); age / expiration / on_server are always exactly what the entries _t/_h/_s record, for '
+                'every script incl. clear(); end to end (server, client and dual back-ends): the next request of a browser reads exactly the '
+                'state the previous one left (values, exposed flags, age, expiration mode, on-server flag) while now <= the deadline of the '
+                'mode, the empty session afterwards - also in closed form from the empty world over all fair histories (reachable-world '
+                'invariant). Exposed cookies, all three expiration modes: only exposed keys keep a cookie; whenever a save gives the session '
+                'cookie a new lifetime (renew, browser, new or reset session in fixed mode) the cookie of every exposed value gets exactly '
+                'that lifetime, otherwise (fixed, no reset) deadline, cookie end and untouched exposed cookies stay as they are; so every '
+                'save re-establishes that each exposed cookie ends with the session cookie (in fixed mode also proved along histories: r1, any '
+                'foreign steps and own unchanged requests, r2), and the browser holds them as long as it holds '
+                'the session cookie, whatever other browsers / attackers do and across its own unchanged requests; every deletion cookie is '
+                'justified (a save that merely sends everything again deletes no hidden key that was never exposed). '
                 'The character test of valid_sid is regenerated from src/session_sid.cpp and proved equal to the model (256-point sweep). The '
                 'model is tied to the code by running the extracted model and the real cppcms::session_interface - over a cookie-jar adapter '
                 'with the real memory / file / network storages behind a logging decorator, and as session_interface(http::context&) behind a '
-                'real in-process HTTP service - on the same multi-browser histories with attacker cookies; an independent Python oracle '
-                'evaluates the property text on the implementation output alone.'),
+                'real in-process HTTP service - on the same multi-browser histories with attacker cookies, observing what is read, the '
+                'storage operations, the resulting jar and the deletion cookies emitted; an independent Python oracle evaluates the property '
+                'text on the implementation output alone.'),
     level_note=('Trusted: Coq kernel + vm_compute; ExtrOcamlBasic extraction; the hand model (tied by correspondence; the only '
                 'source-generated leaf is the sid character test); symbolic MAC (an attacker string never carries a valid MAC unless it is a '
                 'verbatim replay); the browser model (a cookie is sent until its max-age elapsed, session cookies for ever); storages are '
                 'observed through the session_storage interface only; hypotheses on the random source (pairwise distinct, the drawn id well '
                 'formed) are explicit premises. Not covered: CSRF token generation, the empty key, negative ages, keys _t/_h/_s set by the '
-                'application, an exposed-in-step theorem for all modes (false for browser / fixed+reset, see the finding), concurrency '
-                'between requests, gc jobs.'),
+                'application, the exposed-in-step statement as ONE invariant over all reachable worlds (proved as an inductive step of every '
+                'save), concurrency between requests, gc jobs.'),
 )
 
 GEN = {}
@@ -400,7 +403,7 @@ def gen_http_cases(ctx):
 # ---------------------------------------------------------------------------------------------------
 # parsing of the harness output
 # ---------------------------------------------------------------------------------------------------
-R_RE = re.compile(r'^R(?: ld=(\d) d=\[([^\]]*)\] age=(-?\d+) how=(-?\d+) srv=(\d))?(?: EXC:(\w+))? ops=\[([^\]]*)\] jar=\[([^\]]*)\] alive=\[([^\]]*)\]$')
+R_RE = re.compile(r'^R(?: ld=(\d) d=\[([^\]]*)\] age=(-?\d+) how=(-?\d+) srv=(\d))?(?: EXC:(\w+))? ops=\[([^\]]*)\] jar=\[([^\]]*)\] del=\[([^\]]*)\] alive=\[([^\]]*)\]$')
 
 
 def parse_data(s):
@@ -552,7 +555,8 @@ def oracle_(case, out):
         m = R_RE.match(rs)
         if not m:
             return ('bad-output', 'request result does not parse: ' + rs[:200])
-        ld, dtxt, age, how, srv, exc, ops_txt, jar_txt, alive_txt = m.groups()
+        ld, dtxt, age, how, srv, exc, ops_txt, jar_txt, del_txt, alive_txt = m.groups()
+        dels = set(unhex(x) for x in del_txt.split(',')) if del_txt else set()
         # the browser drops cookies whose max-age elapsed
         if sess and sess[1] is not None and now > sess[1]:
             sess = None
@@ -636,6 +640,10 @@ def oracle_(case, out):
                     tok['dead'] = True
             if new_xs:
                 return ('exposed-cookie-outlives-session', 'session was emptied but exposed-value cookies remain: %r' % sorted(map(repr, new_xs)))
+            for k in sorted(dels, key=repr):
+                if not (k in xs or (k in exp_data and exp_data[k][1])):
+                    return ('deletion-cookie-for-unexposed-key', 'session emptied: a deletion cookie was sent for %r, which was neither exposed nor '
+                            'carried as a cookie by the request' % (k,))
             jars[b] = (new_sess, new_xs)
             tr.clear()
             continue
@@ -648,8 +656,10 @@ def oracle_(case, out):
                 skip = True
             elif h in (1, 2) and (now + tval - tin) < tval * 0.1:
                 skip = True
-        # update_exposed(force): an unchanged session that is renewed, and every save in renew mode, re-sends every exposed value
-        force = unchanged or h == 1
+        # update_exposed(force, resend): force = an unchanged session that is renewed; resend = the session cookie gets a new lifetime
+        # (renew and browser mode always, fixed mode for a new or reset session): every exposed value is sent again
+        forced = unchanged
+        force = unchanged or newsess or h != 0
         dropped = [k for k, v in exp_data.items() if v[1] and v[0] != b'' and k in tr and k not in xs and k in xs_pre and xs_pre[k][0] == v[0]]
         # (only when this jar is the one that saved the session last: a stolen cookie used from another jar renews the session
         # without this browser seeing any Set-Cookie)
@@ -667,6 +677,8 @@ def oracle_(case, out):
                 return ('unchanged-session-deadline-moved', 'deadline in storage %r, expected %r' % (alive.get(old_server_id), tin))
             if new_xs != xs:
                 return ('unchanged-session-exposed-cookies-changed', '%r -> %r' % (xs, new_xs))
+            if dels:
+                return ('unchanged-session-exposed-cookies-changed', 'deletion cookies %r sent although nothing was saved' % sorted(map(repr, dels)))
             jars[b] = (new_sess, new_xs)
             continue
         if toolong:
@@ -748,14 +760,8 @@ def oracle_(case, out):
                     # (a browser-session cookie is usable until the deadline kept by the server)
                     xe = new_xs[k][1]
                     if xe is not None and xe < (deadline if exp_exp is None else exp_exp):
-                        tr.discard(k)
-                        if h == 2 or (h == 0 and newsess):
-                            soft.append(('exposed-cookie-not-renewed-with-session-cookie', 'expiration %s: this save moved the end of the session '
-                                         'cookie to %r (deadline %r) but the cookie of the unchanged exposed key %r still expires at %r and was not '
-                                         're-sent' % ('browser' if h == 2 else 'fixed + reset_session()', exp_exp, deadline, k, xe)))
-                        else:
-                            return ('exposed-cookie-shorter-lived-than-session-cookie', 'cookie of exposed key %r expires at %r, the session cookie '
-                                    'at %r (deadline %r)' % (k, xe, exp_exp, deadline))
+                        return ('exposed-cookie-shorter-lived-than-session-cookie', 'cookie of exposed key %r expires at %r, the session cookie '
+                                'at %r (deadline %r)' % (k, xe, exp_exp, deadline))
                 continue
             if changed:
                 return ('exposed-cookies-out-of-step', 'key %r was exposed/changed by this request but its cookie is %r' % (k, gotx.get(k)))
@@ -770,6 +776,17 @@ def oracle_(case, out):
         for k in list(tr):
             if k not in want:
                 tr.discard(k)
+        # deletion cookies: only for keys that need one - an exposed entry sent with an empty value, a key that was exposed and is
+        # hidden / erased now, a prefix_key cookie the request carried for a key that is not exposed, or - on a FORCED update (the
+        # renewal of an unchanged session) - any hidden key.  Not for every hidden key on every save.
+        for k in sorted(dels, key=repr):
+            ent = data.get(k)
+            was = k in exp_data and exp_data[k][1]
+            ok = (ent is not None and ent[1] and ent[0] == b'') or (was and not (ent is not None and ent[1])) \
+                or (k in xs and not (ent is not None and ent[1])) or (forced and ent is not None and not ent[1])
+            if not ok:
+                return ('deletion-cookie-for-unexposed-key', 'a deletion cookie (Max-Age=0) was sent for key %r, which was not exposed before, '
+                        'is not carried as a cookie by the request and the update is not forced' % (k,))
         jars[b] = (new_sess, new_xs)
     return soft[0] if soft else None
 
@@ -822,7 +839,7 @@ def run(ctx):
     ctx.coverage['rule'] = ('one case = one history: config (location client/server/both x storage memory/files/network x expire '
                             'fixed/renew/browser x timeout x client_size_limit) and a list of steps: clock advance, request of browser b '
                             '(load, observe, script of set/erase/clear/expose/hide/age/expiration/on_server/reset_session, save, observe jar + '
-                            'storage log + loadable ids), attacker cookie (literal malformed/path-like/unissued ids, verbatim or mutated replays '
+                            'deletion cookies + storage log + loadable ids), attacker cookie (literal malformed/path-like/unissued ids, verbatim or mutated replays '
                             'of emitted cookies), planted exposed cookie, planted (possibly corrupt) storage record. Directed cases cover the 10 % '
                             'window +-1 s, deadline = now +-1, limit +-1, reset after moving server-side, clear of a client-only session, replay '
                             'of an old id, clear() after / before each setting, exposed values across saves / renewals / mode switches / reset. Exhaustive '
